@@ -285,6 +285,57 @@ pub fn run() -> i32 {
     ctx.note("point_classes", json!(st.dims));
     ctx.absorb("scalarmult", st);
 
+    // sparse point encodings: every byte position takes every value with all other bytes zero,
+    // and every small u (0..16) with every value of the top byte — shortcuts keyed on "looks like
+    // a well-known point" (base point, zero, one) that inspect too few bytes show up here
+    {
+        let mut sparse: Vec<B32> = vec![];
+        for pos in 0..32 {
+            for v in 1..=255u8 {
+                let mut p = [0u8; 32];
+                p[pos] = v;
+                sparse.push(p);
+            }
+        }
+        for lo in 0..16u8 {
+            for top in 1..=255u8 {
+                let mut p = [0u8; 32];
+                p[0] = lo;
+                p[31] = top;
+                sparse.push(p);
+                let mut q = p;
+                q[15] = 1;
+                sparse.push(q);
+            }
+        }
+        let scal: Vec<B32> = vec![karr(seed ^ 0xd, 1), karr(seed ^ 0xd, 2), karr(seed ^ 0xd, 3), prand(seed, "c05-sparse", 0, 32).try_into().unwrap()];
+        let units: Vec<usize> = (0..sparse.len()).step_by(64).collect();
+        let st = par_units(&units, |&start, st| {
+            for pi in start..(start + 64).min(sparse.len()) {
+                let p = &sparse[pi];
+                for (si, n) in scal.iter().enumerate() {
+                    let (_, want) = sodium::scalarmult_raw(n, p);
+                    let got = dry_mult(n, p);
+                    let ok = got == Ok(want);
+                    st.eval(&("sparse", pi, si), true, if ok { "mult(sparse)==libsodium" } else { "mult(sparse)-differs" });
+                    if !ok {
+                        st.fail(Fail { check: "C05.x25519".into(), signature: "C05/scalarmult/differs/sparse-encoding".into(), what: format!("crypto_scalarmult(n={}, p={}) = {:?} but libsodium gives {}", hx(n), hx(p), got.map(|g| hx(&g)), hx(&want)), case: json!({"kind": "mult", "n": hx(n), "p": hx(p)}) });
+                    }
+                    if si == 0 {
+                        let d = guarded(AssertUnwindSafe(|| crypto_box_beforenm(p, n)));
+                        if let (Some(k), Ok(d)) = (sodium::box_beforenm(p, n), d) {
+                            if d != k {
+                                st.fail(Fail { check: "C05.x25519".into(), signature: "C05/beforenm/differs/sparse-encoding".into(), what: format!("crypto_box_beforenm(pk={}, sk={}) differs from libsodium", hx(p), hx(n)), case: json!({"kind": "mult", "n": hx(n), "p": hx(p)}) });
+                            }
+                        }
+                    }
+                }
+            }
+        });
+        ctx.note("sparse_point_encodings", json!(sparse.len()));
+        ctx.absorb("sparse-encodings", st);
+    }
+
     // DH commutes, kx agrees, kx refuses low-order peers
     let nkeys = ctx.tier.pick(12usize, 40);
     let sks: Vec<B32> = (0..nkeys).map(|i| if i < 5 { karr(seed ^ 0xd, i) } else { prand(seed, "c05-sk", i as u64, 32).try_into().unwrap() }).collect();
